@@ -380,6 +380,49 @@ pub struct Finding {
     pub pattern: String,
 }
 
+/// type name -> name of the grammar symbol it was generated for.
+pub fn type_owners(u: &[syn::Item]) -> BTreeMap<String, String> {
+    let mut owners = BTreeMap::new();
+    let items: Vec<&syn::Item> = u.iter().filter(|i| !is_header(i)).collect();
+    let mut k = 0;
+    while k < items.len() {
+        let mut types = vec![];
+        while k < items.len() {
+            match ns_name(items[k]) {
+                Some((Ns::Type, n)) => {
+                    types.push(n);
+                    k += 1;
+                }
+                _ => break,
+            }
+        }
+        let mut rule: Option<String> = None;
+        while k < items.len() {
+            match items[k] {
+                syn::Item::Fn(f) => {
+                    if rule.is_none() {
+                        if let syn::ReturnType::Type(_, t) = &f.sig.output {
+                            if let syn::Type::Path(p) = &**t {
+                                rule = p.path.get_ident().map(|i| i.to_string());
+                            }
+                        }
+                    }
+                    k += 1;
+                }
+                _ => break,
+            }
+        }
+        if let Some(r) = rule {
+            for t in types {
+                owners.insert(t, r.clone());
+            }
+        } else if types.is_empty() {
+            k += 1;
+        }
+    }
+    owners
+}
+
 fn names_of(items: &[syn::Item]) -> Vec<Option<(Ns, String)>> {
     items.iter().map(ns_name).collect()
 }
@@ -429,7 +472,24 @@ pub fn check_regen(m: &Model, p_bytes: &[u8], q_bytes: &[u8], st: &mut Stats) ->
     if missing != got {
         let not_added: Vec<String> = missing.iter().filter(|x| !got.contains(x)).map(|x| format!("{:?} {}", x.0, x.1)).collect();
         let extra: Vec<String> = got.iter().filter(|x| !missing.contains(x) || got.iter().filter(|y| y == x).count() > missing.iter().filter(|y| y == x).count()).map(|x| format!("{:?} {}", x.0, x.1)).collect();
-        let pattern = if !not_added.is_empty() && extra.is_empty() { "missing-not-added" } else if not_added.is_empty() { "extra-appended" } else { "missing-and-extra" };
+        // Which rule owns a generated type: a fresh generation emits, per
+        // grammar symbol, a run of types followed by a run of action functions
+        // returning the type named like the symbol.
+        let owners = type_owners(&m.u);
+        let companions_only = !not_added.is_empty()
+            && extra.is_empty()
+            && missing.iter().filter(|x| !got.contains(x)).all(|x| {
+                x.0 == Ns::Type && matches!(owners.get(&x.1), Some(rule) if *rule != x.1 && top_p.contains(&(Ns::Type, rule.clone())))
+            });
+        let pattern = if companions_only {
+            "missing-not-added:companion-type-while-rule-type-present"
+        } else if !not_added.is_empty() && extra.is_empty() {
+            "missing-not-added"
+        } else if not_added.is_empty() {
+            "extra-appended"
+        } else {
+            "missing-and-extra"
+        };
         return Some(Finding { rule: "K3", what: format!("missing items not added: [{}]; items appended although present: [{}]", not_added.join(", "), extra.join(", ")), pattern: pattern.into() });
     }
     // K4 no duplicates
@@ -443,7 +503,10 @@ pub fn check_regen(m: &Model, p_bytes: &[u8], q_bytes: &[u8], st: &mut Stats) ->
         *count_q.entry(nn).or_insert(0) += 1;
     }
     for (nn, c) in &count_q {
-        let allowed = (*count_p.get(nn).unwrap_or(&0)).max(1);
+        // a fresh generation may itself contain a name twice (that is C11's
+        // business); regeneration must not add more than that
+        let count_u = m.u.iter().filter(|u| ns_name(u).as_ref() == Some(nn)).count();
+        let allowed = (*count_p.get(nn).unwrap_or(&0)).max(count_u).max(1);
         if *c > allowed {
             return Some(Finding { rule: "K4", what: format!("{:?} `{}` occurs {} times after regeneration ({} before)", nn.0, nn.1, c, count_p.get(nn).unwrap_or(&0)), pattern: "duplicate".into() });
         }
@@ -458,12 +521,27 @@ fn fault_allowed_failing(ev: &crate::shim::SimEvent) -> bool {
 pub struct RunResult {
     pub finding: Option<(usize, Finding)>,
     pub final_bytes: Vec<u8>,
+    /// findings whose key is listed as known: the history continues past them
+    pub tolerated: Vec<(usize, Finding)>,
+}
+
+thread_local! {
+    /// keys of known findings (loaded once per process from known_findings.json)
+    pub static TOLERATE: std::cell::RefCell<BTreeSet<String>> = const { std::cell::RefCell::new(BTreeSet::new()) };
+}
+
+fn tolerated_key(f: &Finding) -> bool {
+    let k = format!("{}:{}", f.rule, f.pattern);
+    TOLERATE.with(|t| t.borrow().contains(&k))
 }
 
 /// Executes the explicit steps of a case, checking every regeneration.
 pub fn run_case(env: &Env, case: &Case, m: &Model, st: &mut Stats) -> RunResult {
     let aname = actions_name(&case.grammar);
     let mut cur: Option<Vec<u8>> = None;
+    // index of the last regeneration that returned Ok with no failing fault
+    let mut last_clean_regen: Option<usize> = None;
+    let mut tolerated: Vec<(usize, Finding)> = vec![];
     for (si, step) in case.steps.iter().enumerate() {
         match step {
             Step::Edit { bytes, .. } => cur = Some(bytes.clone()),
@@ -485,10 +563,15 @@ pub fn run_case(env: &Env, case: &Case, m: &Model, st: &mut Stats) -> RunResult 
                 }
                 let failing_fired = o.stat.errno > 0;
                 let after = o.file(&aname);
+                if let Ok(d) = std::env::var("VERIF_DUMP") {
+                    let _ = std::fs::write(format!("{d}/step{si}.before.rs"), cur.clone().unwrap_or_default());
+                    let _ = std::fs::write(format!("{d}/step{si}.after.rs"), after.clone().unwrap_or_default());
+                    let _ = std::fs::write(format!("{d}/step{si}.class"), format!("{:?} fired={failing_fired} events={:?}", o.class, o.events));
+                }
                 match &o.class {
                     Class::Panic(_) | Class::Abort(_) | Class::Timeout => {
                         // C16's business; the history cannot continue
-                        return RunResult { finding: None, final_bytes: cur.unwrap_or_default() };
+                        return RunResult { tolerated: std::mem::take(&mut tolerated), finding: None, final_bytes: cur.unwrap_or_default() };
                     }
                     Class::Err(msg) => {
                         st.regens_err += 1;
@@ -497,13 +580,27 @@ pub fn run_case(env: &Env, case: &Case, m: &Model, st: &mut Stats) -> RunResult 
                         if after != cur {
                             // A failed *write* can tear the file (fs::write
                             // truncates first): counted, never alarmed.
-                            let write_failed = failing_fired && o.events.iter().any(|e| e.fault == F_ERRNO && e.op != OP_OPEN && e.op != OP_READ);
-                            if write_failed {
+                            // Under an injected failing fault the relaxation is
+                            // deliberate and narrow: the actions file is written
+                            // before the parser file, so the error may come
+                            // after a *complete and correct* regeneration
+                            // (checked by K1-K4), or the write of the actions
+                            // file itself failed and tore it (fs::write truncates
+                            // first: counted, never alarmed -- C18 does not
+                            // quantify over crash points).
+                            if failing_fired {
+                                if let (Some(p), Some(a)) = (&cur, &after) {
+                                    if check_regen(m, p, a, &mut Stats::default()).is_none() {
+                                        cur = after;
+                                        continue;
+                                    }
+                                }
                                 st.torn_actions_file += 1;
                                 cur = after;
                                 continue;
                             }
                             return RunResult {
+                                tolerated: std::mem::take(&mut tolerated),
                                 finding: Some((si, Finding { rule: "K7", what: format!("regeneration returned Err ({}) but the actions file changed", msg.chars().take(100).collect::<String>()), pattern: "err-but-changed".into() })),
                                 final_bytes: after.unwrap_or_default(),
                             };
@@ -513,13 +610,13 @@ pub fn run_case(env: &Env, case: &Case, m: &Model, st: &mut Stats) -> RunResult 
                         let after = match after {
                             Some(a) => a,
                             None => {
-                                return RunResult { finding: Some((si, Finding { rule: "K1", what: "regeneration returned Ok but there is no actions file".into(), pattern: "no-file".into() })), final_bytes: vec![] };
+                                return RunResult { tolerated: std::mem::take(&mut tolerated), finding: Some((si, Finding { rule: "K1", what: "regeneration returned Ok but there is no actions file".into(), pattern: "no-file".into() })), final_bytes: vec![] };
                             }
                         };
                         if *force {
                             bump(&mut st.rules_checked, "K6");
                             if after != m.golden {
-                                return RunResult { finding: Some((si, Finding { rule: "K6", what: "forced regeneration differs from a fresh generation".into(), pattern: "force-not-golden".into() })), final_bytes: after };
+                                return RunResult { tolerated: std::mem::take(&mut tolerated), finding: Some((si, Finding { rule: "K6", what: "forced regeneration differs from a fresh generation".into(), pattern: "force-not-golden".into() })), final_bytes: after };
                             }
                         } else if failing_fired {
                             // a failing fault that the compiler absorbed (e.g.
@@ -527,7 +624,11 @@ pub fn run_case(env: &Env, case: &Case, m: &Model, st: &mut Stats) -> RunResult 
                             if let Some(p) = &cur {
                                 st.regens_checked += 1;
                                 if let Some(f) = check_regen(m, p, &after, st) {
-                                    return RunResult { finding: Some((si, f)), final_bytes: after };
+                                    if tolerated_key(&f) {
+                                        tolerated.push((si, f));
+                                    } else {
+                                        return RunResult { tolerated: std::mem::take(&mut tolerated), finding: Some((si, f)), final_bytes: after };
+                                    }
                                 }
                             }
                         } else {
@@ -535,32 +636,40 @@ pub fn run_case(env: &Env, case: &Case, m: &Model, st: &mut Stats) -> RunResult 
                                 Some(p) => {
                                     st.regens_checked += 1;
                                     if let Some(f) = check_regen(m, p, &after, st) {
-                                        return RunResult { finding: Some((si, f)), final_bytes: after };
+                                        if tolerated_key(&f) {
+                                            tolerated.push((si, f));
+                                        } else {
+                                            return RunResult { tolerated: std::mem::take(&mut tolerated), finding: Some((si, f)), final_bytes: after };
+                                        }
                                     }
-                                    // K5 idempotence: the previous step was also a
-                                    // plain regen => bytes must be identical
-                                    if si > 0 && matches!(&case.steps[si - 1], Step::Regen { force: false, .. }) {
+                                    // K5 idempotence: the previous step was a
+                                    // regeneration that succeeded undisturbed
+                                    // => bytes must be identical
+                                    if si > 0 && last_clean_regen == Some(si - 1) {
                                         bump(&mut st.rules_checked, "K5");
                                         if after != *p {
-                                            return RunResult { finding: Some((si, Finding { rule: "K5", what: "a second regeneration changed the file".into(), pattern: "not-idempotent".into() })), final_bytes: after };
+                                            return RunResult { tolerated: std::mem::take(&mut tolerated), finding: Some((si, Finding { rule: "K5", what: "a second regeneration changed the file".into(), pattern: "not-idempotent".into() })), final_bytes: after };
                                         }
                                     }
                                 }
                                 None => {
                                     bump(&mut st.rules_checked, "K6");
                                     if after != m.golden {
-                                        return RunResult { finding: Some((si, Finding { rule: "K6", what: "generation into an empty directory differs from the golden bytes".into(), pattern: "fresh-not-golden".into() })), final_bytes: after };
+                                        return RunResult { tolerated: std::mem::take(&mut tolerated), finding: Some((si, Finding { rule: "K6", what: "generation into an empty directory differs from the golden bytes".into(), pattern: "fresh-not-golden".into() })), final_bytes: after };
                                     }
                                 }
                             }
                         }
                         cur = Some(after);
+                        if !failing_fired {
+                            last_clean_regen = Some(si);
+                        }
                     }
                 }
             }
         }
     }
-    RunResult { finding: None, final_bytes: cur.unwrap_or_default() }
+    RunResult { tolerated, finding: None, final_bytes: cur.unwrap_or_default() }
 }
 
 pub struct Ctx {
@@ -670,7 +779,11 @@ pub fn gen_and_run(env: &Env, ctx: &Ctx, stream: u64, idx: u64, with_faults: boo
         st.samples.push(json!({"grammar": case.grammar.id, "settings": case.spec.label(),
             "history": case.steps.iter().map(|s| match s { Step::Edit { desc, .. } => format!("edit: {desc}"), Step::Regen { force, faults } => format!("regen force={force} faults={}", faults.len()) }).collect::<Vec<_>>()}));
     }
-    r.finding.map(|(si, f)| {
+    let first = match r.finding {
+        Some(x) => Some(x),
+        None => r.tolerated.into_iter().next(),
+    };
+    first.map(|(si, f)| {
         let mut c = case.clone();
         c.steps.truncate(si + 1);
         Violation {
@@ -705,7 +818,11 @@ pub fn work(env: &Env, ctx: &Ctx, w: usize, nw: usize, plan: &[(u64, u64, bool)]
 pub fn replay(env: &Env, case: &Case) -> Option<(String, String)> {
     let m = model(env, &case.grammar, &case.spec)?;
     let r = run_case(env, case, &m, &mut Stats::default());
-    r.finding.map(|(si, f)| (format!("{}:{}", f.rule, f.pattern), format!("{} [step {si}]", f.what)))
+    let first = match r.finding {
+        Some(x) => Some(x),
+        None => r.tolerated.into_iter().next(),
+    };
+    first.map(|(si, f)| (format!("{}:{}", f.rule, f.pattern), format!("{} [step {si}]", f.what)))
 }
 
 /// Drop steps while the same class persists; edits are absolute (explicit
